@@ -476,6 +476,18 @@ def run_check(pid, tier, seed, replay=None):
     rng = random.Random((seed * 1000003) ^ int(hashlib.sha256(pid.encode()).hexdigest()[:8], 16))
     info = prepare(prop)
     obligations = info['obligations']
+    # thorough tier: the toolchain's independent re-checker replays the declarations of the compiled theorem modules
+    # through the kernel once more; a module it rejects discharges nothing
+    rechecked = None
+    if tier == 'thorough' and not replay:
+        mods = [m for m, _ in prop.THEOREMS if any(o['discharged'] for o in obligations if o.get('module') == m)] or \
+               [m for m, _ in prop.THEOREMS]
+        rc, out = sh(['lake', 'env', 'leanchecker'] + mods, cwd=LEAN, timeout=1800)
+        rechecked = {'modules': mods, 'rc': rc, 'tail': out[-400:] if rc else ''}
+        if rc != 0:
+            for o in obligations:
+                o['discharged'] = False
+            log('[%s] leanchecker rejected the compiled theorem modules: %s' % (pid, out[-400:]))
     undischarged = [o for o in obligations if not o['discharged']]
     res = Result()
     known = [k for k in load_known() if k['property'] == pid]
@@ -676,13 +688,15 @@ def run_check(pid, tier, seed, replay=None):
     n_obl = len(obligations)
     n_dis = len([o for o in obligations if o['discharged']])
     checker = 'cd lean && lake build ' + ' '.join(m for m, _ in prop.THEOREMS) + \
-        ' && lake env lean <#print axioms of each registered theorem>'
+        ' && lake env lean <#print axioms of each registered theorem>' + \
+        (' && lake env leanchecker ' + ' '.join(m for m, _ in prop.THEOREMS) if tier == 'thorough' else '')
     coverage = {
         'obligations': n_obl,
         'discharged': n_dis,
         'checker_cmd': checker,
         'trusted_base': prop.TRUSTED,
         'theorems': [{'name': o['theorem'], 'axioms': o['axioms'], 'discharged': o['discharged']} for o in obligations],
+        'leanchecker': rechecked,
         'evaluations': res.evaluations,
         'distinct_nontrivial': len(res.nontrivial),
         'distinct_inputs': len(res.seen),
